@@ -504,11 +504,18 @@ def rule_each(env, shared):
             k = "EACH|fold|accumulator"
             good = False
             # _0 is moved from acc; acc defs: neutral param and call_mut results
-            d0 = [x for x in a.defs().get(0, []) if x[2] == "assign"]
+            d0 = [x for x in a.defs().get(0, []) if not a.blocks[x[0]]["cleanup"]]
             acc = None
-            if len(d0) == 1 and d0[0][3]["k"] == "use" and d0[0][3]["op"]["k"] in ("move", "copy") \
-                    and not d0[0][3]["op"]["place"]["p"]:
-                acc = d0[0][3]["op"]["place"]["l"]
+            # every `return` hands back the same accumulator local (one tail expression, or early returns of it)
+            srcs = set()
+            for x in d0:
+                if x[2] == "assign" and x[3]["k"] == "use" and x[3]["op"]["k"] in ("move", "copy") \
+                        and not x[3]["op"]["place"]["p"]:
+                    srcs.add(x[3]["op"]["place"]["l"])
+                else:
+                    srcs.add(None)
+            if len(srcs) == 1 and None not in srcs:
+                acc = srcs.pop()
             if acc is not None:
                 defs = a.defs().get(acc, [])
                 init_ok = False
@@ -780,6 +787,53 @@ rule_cfgdiff.once = True
 
 
 # ---------------------------------------------------------------------------------------------------
+def option_map_payload(ev, F, b, is_source):
+    """If body b returns `src()` itself or an Option that is None exactly when the single inner call `src()` (a `ret` term
+    accepted by is_source) returned None and Some(p) otherwise — written with Option::map, match, if-let or `?` — returns
+    (rt, p, cands): the inner call, the payload expression (None for the unchanged result) and the terms that stand for
+    the inner payload in it. Otherwise None."""
+    from terms import Ctx
+    from guards import local_cases
+    ctx = Ctx(b, stack=(b.def_,))
+    t = unref(ev.local(ctx, 0))
+    rets = [x for x in subterms(t) if x[0] == "ret" and is_source(x)]
+    for (K, fs, v) in (local_cases(ev, ctx, 0, True) or []):
+        for f in fs:
+            if f[0] == "is_some" and f[1][0] == "ret" and is_source(f[1]):
+                rets.append(f[1])
+    rets = list(dict.fromkeys(rets))
+    if len(rets) != 1:
+        return None
+    rt = rets[0]
+    cands = [("param", 2), ("payload", rt), unref(ev.payload(ctx, rt))]
+    if t == rt:
+        return (rt, None, cands)
+    if t[0] == "call" and t[1] == "Option::map" and len(t[2]) == 2 and unref(t[2][0]) == rt:
+        clo = unref(t[2][1])
+        if clo[0] == "agg" and clo[1].startswith("closure:"):
+            cb = F.bodies.get(clo[1][len("closure:"):])
+            if cb is not None:
+                return (rt, unref(ev.local(Ctx(cb, stack=(cb.def_,)), 0)), cands)
+        return None
+    if not b.locals[0]["ty"]["s"].replace("core::", "std::").startswith("std::option::Option<"):
+        return None
+    cs = [c for c in (local_cases(ev, ctx, 0, True) or []) if c[0] in ("Some", "None")]
+    ps = set()
+    has_none = False
+    for (K, fs, v) in cs:
+        if ("is_some", rt, K == "Some") not in fs:
+            return None
+        if K == "None":
+            has_none = True
+        elif v is not None and v[0] == "agg" and v[2]:
+            ps.add(unref(v[2][0]))
+        else:
+            return None
+    if has_none and len(ps) == 1:
+        return (rt, ps.pop(), cands)
+    return None
+
+
 def rule_wrap(env, shared):
     """WRAP: the thin layers above the pulls neither lose nor relabel anything: the default `next()` is
     `next_id_and_value().map(|x| x.value)`; the `values()` / `ids_and_values()` iterators call exactly that / map the same Next
@@ -802,14 +856,11 @@ def rule_wrap(env, shared):
         b = F.bodies[d]
         t, ctx = direct(b)
         good = False
-        if t[0] == "call" and t[1] == "Option::map" and len(t[2]) == 2:
-            recv, clo = unref(t[2][0]), unref(t[2][1])
-            if recv[0] == "ret" and recv[1] == R.T_CON + "::next_id_and_value" and unref(recv[2][0]) in (
-                    ("param", 1), ("deref", ("param", 1))) and clo[0] == "agg" and clo[1].startswith("closure:"):
-                cb = F.bodies.get(clo[1][len("closure:"):])
-                if cb is not None:
-                    ct = unref(ev0.local(Ctx(cb, stack=(cb.def_,)), 0))
-                    good = ct[0] == "field" and ct[2] == 1 and ct[1] == ("param", 2)
+        om = option_map_payload(ev0, F, b, lambda x: x[1] == R.T_CON + "::next_id_and_value"
+                                and unref(x[2][0]) in (("param", 1), ("deref", ("param", 1))))
+        if om is not None and om[1] is not None:
+            rt, pay, cands = om
+            good = pay[0] == "field" and pay[2] == 1 and unref(pay[1]) in cands
         out.append(Ob("WRAP", k, "ok" if good else "viol", b.file_line(),
                       "next() = next_id_and_value().map(|x| x.value)" if good else
                       "the default next() is not next_id_and_value().map(|x| x.value): %s" % fmt(t)[:120], True))
@@ -844,20 +895,20 @@ def rule_wrap(env, shared):
             while x[0] == "deref":
                 x = unref(x[1])
             return x[0] == "field" and x[2] == 0 and unref(x[1]) in (("param", 1), ("deref", ("param", 1)))
-        if t[0] == "ret" and t[1] == R.T_CON + "::next" and is_inner(t[2][0]):
-            good, what = True, "forwards to next()"
-        elif t[0] == "call" and t[1] == "Option::map" and len(t[2]) == 2:
-            recv, clo = unref(t[2][0]), unref(t[2][1])
-            if recv[0] == "ret" and recv[1] == R.T_CON + "::next_id_and_value" and is_inner(recv[2][0]) \
-                    and clo[0] == "agg" and clo[1].startswith("closure:"):
-                cb = F.bodies.get(clo[1][len("closure:"):])
-                if cb is not None:
-                    ct = unref(ev0.local(Ctx(cb, stack=(cb.def_,)), 0))
-                    if ct[0] == "agg" and ct[1] == "tuple" and len(ct[2]) == 2:
-                        x0, x1 = unref(ct[2][0]), unref(ct[2][1])
-                        if x0[0] == "field" and x0[2] == 0 and x0[1] == ("param", 2) and x1[0] == "field" and x1[2] == 1 \
-                                and x1[1] == ("param", 2):
-                            good, what = True, "maps the same Next to (idx, value)"
+        om = option_map_payload(ev0, F, b, lambda x: x[1] in (R.T_CON + "::next", R.T_CON + "::next_id_and_value")
+                                and is_inner(x[2][0]))
+        if om is not None:
+            rt, pay, cands = om
+            if pay is None and rt[1] == R.T_CON + "::next":
+                good, what = True, "forwards to next()"
+            elif pay is not None and rt[1] == R.T_CON + "::next_id_and_value":
+                if pay[0] == "agg" and pay[1] == "tuple" and len(pay[2]) == 2:
+                    x0, x1 = unref(pay[2][0]), unref(pay[2][1])
+                    if x0[0] == "field" and x0[2] == 0 and unref(x0[1]) in cands and x1[0] == "field" and x1[2] == 1 \
+                            and unref(x1[1]) in cands:
+                        good, what = True, "maps the same Next to (idx, value)"
+                elif pay[0] == "field" and pay[2] == 1 and unref(pay[1]) in cands:
+                    good, what = True, "maps the Next to its value"
         out.append(Ob("WRAP", k, "ok" if good else "viol", b.file_line(),
                       what if good else "%s::next does not hand on exactly what the pull returned: %s" % (a["name"], fmt(t)[:140]),
                       True))
